@@ -1,3 +1,4 @@
 //! Independent f64 reference formulas written from the publications (DESIGN 3.5).
 //! No palette types, no palette constants.
 pub mod cam16;
+pub mod difference;
